@@ -1,6 +1,13 @@
-(* C17 — gomini/regex relations agree with Brzozowski-derivative semantics. (statements are added as the proofs land) *)
+(* C17 — gomini/regex relations agree with Brzozowski-derivative semantics (alphabet {a,b}, ground expression/string).
+   Only statements, each closed by `exact`, with Print Assumptions beneath.
+   The relation bodies (nullo_body, isnullo_body, derivo_body, sderivo_body, sderivos_body, matcho_body, ismatcho_body and
+   the helpers of simplo.go / derivo.go, and the table regex_defs) are REGENERATED from gomini/regex/*.go on every run by
+   harness/cmd/genrels (coq/gen/RelRegex.v): these theorems are re-checked against what the code says now.
+   `lang` is the usual inductive matching relation (RegexLang.v); `enc_re`/`enc_sym`/`enc_str` are the translator's term
+   encodings of the Go values (by constructor); `Den` is the logical reading of goals (Den.v), which C02/C03 and C06 tie to
+   the answers the engines return. *)
 From Coq Require Import List NArith ZArith Bool.
-From GMK Require Import Term Unify Goal.
+From GMK Require Import Term Unify Goal Den ListRel RegexLang RegexSpec RegexTotal.
 From GMK.gen Require Import RelRegex.
 Import ListNotations.
 
@@ -9,3 +16,104 @@ Example C17_table : regex_defs nullo_idx = Some nullo_body /\ regex_defs isnullo
   regex_defs derivo_idx = Some derivo_body /\ regex_defs sderivo_idx = Some sderivo_body /\
   regex_defs sderivos_idx = Some sderivos_body.
 Proof. repeat split; reflexivity. Qed.
+
+(* the reference semantics is the right one: nullable decides the empty word, deriv is the Brzozowski derivative,
+   matching by derivatives is membership *)
+Theorem C17_reference : forall r c s,
+  (nullable r = true <-> lang r []) /\ (lang (deriv c r) s <-> lang r (c :: s)) /\ (matches r s = true <-> lang r s).
+Proof. exact (fun r c s => conj (nullable_spec r) (conj (deriv_spec c r s) (matches_spec r s))). Qed.
+Print Assumptions C17_reference.
+
+(* NullO(r, out): out is EmptyStr when r accepts the empty string and EmptySet otherwise - exactly one verdict *)
+Theorem C17_nullo : forall x o ve r, close ve x = enc_re r ->
+  (Den regex_defs (GCall nullo_idx [x; o]) ve <-> close ve o = enc_re (if nullable r then REmptyStr else REmptySet)).
+Proof. exact nullo_den. Qed.
+Print Assumptions C17_nullo.
+
+(* IsNullO(r) holds exactly when r accepts the empty string *)
+Theorem C17_isnullo : forall x ve r, close ve x = enc_re r ->
+  (Den regex_defs (GCall isnullo_idx [x]) ve <-> lang r []).
+Proof. exact isnullo_den. Qed.
+Print Assumptions C17_isnullo.
+
+(* DerivO(r, c, dr): EVERY answer is a regular expression denoting the derivative of r by c; the textbook derivative
+   is an answer (so there is one) *)
+Theorem C17_derivo : forall x ch d ve r c, close ve x = enc_re r -> close ve ch = enc_sym c ->
+  (Den regex_defs (GCall derivo_idx [x; ch; d]) ve ->
+     exists q, close ve d = enc_re q /\ forall s, lang q s <-> lang r (c :: s)) /\
+  (close ve d = enc_re (deriv c r) -> Den regex_defs (GCall derivo_idx [x; ch; d]) ve).
+Proof. exact derivo_den. Qed.
+Print Assumptions C17_derivo.
+
+(* SDerivO: the same with the simplifying constructors (the smart constructors preserve the language) *)
+Theorem C17_sderivo : forall x ch d ve r c, close ve x = enc_re r -> close ve ch = enc_sym c ->
+  (Den regex_defs (GCall sderivo_idx [x; ch; d]) ve ->
+     exists q, close ve d = enc_re q /\ forall s, lang q s <-> lang r (c :: s)) /\
+  (close ve d = enc_re (sderiv c r) -> Den regex_defs (GCall sderivo_idx [x; ch; d]) ve).
+Proof. exact sderivo_den. Qed.
+Print Assumptions C17_sderivo.
+
+(* SDerivOs(r, s, res): every answer denotes the derivative of r by the whole string s; there is one *)
+Theorem C17_sderivos : forall x st d ve r s, close ve x = enc_re r -> close ve st = enc_str s ->
+  (Den regex_defs (GCall sderivos_idx [x; st; d]) ve ->
+     exists q, close ve d = enc_re q /\ forall t, lang q t <-> lang r (s ++ t)) /\
+  (close ve d = enc_re (sderivs r s) -> Den regex_defs (GCall sderivos_idx [x; st; d]) ve).
+Proof. exact sderivos_den. Qed.
+Print Assumptions C17_sderivos.
+
+(* IsMatchO(r, s) has an answer exactly when s is in the language of r *)
+Theorem C17_ismatcho : forall x st ve r s, close ve x = enc_re r -> close ve st = enc_str s ->
+  (Den regex_defs (GLet [x; st] ismatcho_body) ve <-> lang r s).
+Proof. exact ismatcho_den. Qed.
+Print Assumptions C17_ismatcho.
+
+(* MatchO(r, s, res): res is EmptyStr when s is in the language and EmptySet otherwise: one verdict, never both *)
+Theorem C17_matcho : forall x st res ve r s, close ve x = enc_re r -> close ve st = enc_str s ->
+  (Den regex_defs (GLet [x; st; res] matcho_body) ve <->
+   close ve res = enc_re (if matches r s then REmptyStr else REmptySet)).
+Proof. exact matcho_den. Qed.
+Print Assumptions C17_matcho.
+
+Theorem C17_matcho_single_verdict : forall x st res ve r s, close ve x = enc_re r -> close ve st = enc_str s ->
+  Den regex_defs (GLet [x; st; res] matcho_body) ve ->
+  (close ve res = enc_re REmptyStr /\ lang r s) \/ (close ve res = enc_re REmptySet /\ ~ lang r s).
+Proof. exact matcho_single_verdict. Qed.
+Print Assumptions C17_matcho_single_verdict.
+
+(* every derivable call of the table satisfies its specification (the least-fixed-point statement the above rest on) *)
+Theorem C17_table_sound : forall r env, DenCall regex_defs r env -> regex_spec r env.
+Proof. exact regex_sound. Qed.
+Print Assumptions C17_table_sound.
+
+(* the table is relational and every call is defined (hypotheses of the search theorems) *)
+Theorem C17_table_ok : forall r body, regex_defs r = Some body -> calls_okb regex_defs body = true /\ relational body = true.
+Proof. exact regex_defs_calls_ok. Qed.
+Print Assumptions C17_table_ok.
+
+(* the encodings are injective: distinct expressions / strings are distinct terms, so "exactly one verdict" is not an
+   artefact of the encoding *)
+Theorem C17_encoding_injective :
+  (forall r r', enc_re r = enc_re r' -> r = r') /\ (forall s s', enc_str s = enc_str s' -> s = s') /\
+  (forall c d, enc_sym c = enc_sym d -> c = d).
+Proof. exact (conj enc_re_inj (conj enc_str_inj enc_sym_inj)). Qed.
+Print Assumptions C17_encoding_injective.
+
+(* non-vacuity: a*b and the string "b": the hypotheses are met by a closed instance, the verdict is EmptyStr,
+   and the former unguarded alternative's answer (EmptySet) is excluded *)
+Example C17_nonvacuous :
+  let r := RConcat (RStar (RChar SA)) (RChar SB) in
+  Den regex_defs (GLet [PB 2; PB 1; PB 0] matcho_body) [enc_re REmptyStr; enc_str [SB]; enc_re r] /\
+  ~ Den regex_defs (GLet [PB 2; PB 1; PB 0] matcho_body) [enc_re REmptySet; enc_str [SB]; enc_re r] /\
+  Den regex_defs (GLet [PB 1; PB 0] ismatcho_body) [enc_str [SB]; enc_re r] /\
+  ~ Den regex_defs (GLet [PB 1; PB 0] ismatcho_body) [enc_str [SA]; enc_re r].
+Proof.
+  intros r. split; [|split; [|split]].
+  - apply (matcho_den (PB 2) (PB 1) (PB 0) [enc_re REmptyStr; enc_str [SB]; enc_re r] r [SB] eq_refl eq_refl).
+    reflexivity.
+  - intros H.
+    apply (matcho_den (PB 2) (PB 1) (PB 0) [enc_re REmptySet; enc_str [SB]; enc_re r] r [SB] eq_refl eq_refl) in H.
+    discriminate H.
+  - apply (ismatcho_den (PB 1) (PB 0) [enc_str [SB]; enc_re r] r [SB] eq_refl eq_refl). apply matches_spec. reflexivity.
+  - intros H. apply (ismatcho_den (PB 1) (PB 0) [enc_str [SA]; enc_re r] r [SA] eq_refl eq_refl) in H.
+    apply matches_spec in H. discriminate H.
+Qed.
